@@ -5,6 +5,13 @@ ROOT = os.path.dirname(os.path.dirname(os.path.abspath(__file__)))
 sys.path.insert(0, ROOT)
 from tools.proptable import TABLE, NOT_APPLICABLE  # noqa
 
+import glob
+for f in glob.glob(os.path.join(ROOT, "tools", "proptable.d", "*.json")):
+    pid_ = os.path.basename(f)[:-5]
+    try:
+        TABLE.setdefault(pid_, json.load(open(f)))
+    except Exception as e:
+        print("bad proptable entry", f, e)
 props = [json.loads(l)["id"] for l in open(os.path.join(ROOT, "properties.jsonl"))]
 checks = []
 na = []
